@@ -315,6 +315,33 @@ Definition handled (o : op) : bool :=
 
 Definition classified (ops : list op) (o : op) : bool := simple_checked ops o || handled o.
 
+(* DOWNGRADE RULE: an operation whose shape the translator could not produce in this run - a step
+   [Untranslated why] other than an unresolved attribute ("no such attribute ..." is a fact about the
+   code, not a refusal) - or that calls such an operation, is "tainted": the class theorem is not
+   claimed for it in this run; the harness lists it as ops_downgraded and requires that the fault
+   oracle exercised it.  An operation whose shape IS produced but is neither in the class nor has
+   its recorded shape still breaks the obligation. *)
+Definition refusal (s : step) : bool :=
+  match s with
+  | Untranslated w => negb (String.prefix "no such attribute" w)
+  | _ => false
+  end.
+Fixpoint tainted_steps (ops : list op) (fuel : nat) (l : list step) : bool :=
+  match fuel with
+  | O => false
+  | S f =>
+    existsb (fun s =>
+      refusal s ||
+      match s with
+      | Call m _ => match find_op ops m with Some o => tainted_steps ops f (o_steps o) | None => false end
+      | CallName _ _ => match find_op ops "send_message_with_name" with
+                        | Some o => tainted_steps ops f (o_steps o) | None => false end
+      | _ => false
+      end) l
+  end.
+Definition tainted (ops : list op) (o : op) : bool := tainted_steps ops (S (length ops)) (o_steps o).
+Definition classified_or_downgraded (ops : list op) (o : op) : bool := classified ops o || tainted ops o.
+
 (* an operation must not be in both lists (a recorded shape that has become straight-line
    would otherwise hide behind the oracle-only label) *)
 Definition exclusive (ops : list op) (o : op) : bool := negb (simple_checked ops o && handled o).
